@@ -200,6 +200,96 @@ def impl_events(ctx):
     return events
 
 
+def reduce_gram(Gs):
+    """Integer pair reduction: returns (Gr, U) with Gs = U Gr U^T, U unimodular (TLC re-checks both)."""
+    Gs = np.array(Gs, dtype=object)
+    B = np.eye(3, dtype=object)
+    for _ in range(200):
+        G = B.dot(Gs).dot(B.T)
+        changed = False
+        for i in range(3):
+            for j in range(3):
+                if i != j and G[j][j] > 0:
+                    k = (2 * G[i][j] + G[j][j]) // (2 * G[j][j])  # nearest integer
+                    if k != 0:
+                        B[i] = B[i] - k * B[j]
+                        G = B.dot(Gs).dot(B.T)
+                        changed = True
+        if not changed:
+            break
+    Bf = np.array(B, dtype=float)
+    U = np.rint(np.linalg.inv(Bf)).astype(int)
+    Gr = np.array(B.dot(Gs).dot(B.T), dtype=int)
+    return Gr.tolist(), U
+
+
+PHONOPY_CASES = [
+    ("sc", [[2, 0, 0], [0, 2, 0], [0, 0, 2]], None), ("sc", [[2, 1, 0], [0, 2, 0], [0, 0, 1]], None),
+    ("cscl", [[2, 0, 0], [0, 2, 0], [0, 0, 2]], None), ("cscl", [[0, 1, 1], [1, 0, 1], [1, 1, 0]], None),
+    ("bcc", [[2, 0, 0], [0, 2, 0], [0, 0, 2]], "I"), ("nacl", [[1, 0, 0], [0, 1, 0], [0, 0, 2]], "F"),
+    ("hcp", [[2, 0, 0], [0, 2, 0], [0, 0, 1]], None), ("hcp", [[3, 0, 0], [0, 3, 0], [0, 0, 2]], None),
+    ("tric", [[1, 1, 0], [-1, 1, 0], [0, 0, 2]], None), ("tetab", [[2, 0, 0], [0, 2, 0], [0, 0, 2]], None),
+]
+
+
+def phonopy_events(ctx):
+    """Shortest vectors as stored by real Primitive objects (primitive-cell coordinates, both storage formats)."""
+    from phonopy import Phonopy
+    from harness.oracle import Oracle, adj3, det3 as odet
+
+    rng = ctx.rng
+    events = []
+    cases = PHONOPY_CASES if not ctx.quick else PHONOPY_CASES[::2]
+    for entry, S, P in cases:
+        orc = Oracle(entry, [S], seed=ctx.seed, ctx=ctx)
+        D0 = orc.D
+        dS = odet(S)
+        D = D0 * abs(dS)
+        if D > 64:
+            continue
+        Gs = (np.array(S).T @ np.array(orc.cr["G"]) @ np.array(S))
+        Gr, U = reduce_gram(Gs)
+        A = adj3(S) * (1 if dS > 0 else -1)
+        tables = {}
+        for dense in (True, False):
+            ph = Phonopy(orc.unitcell(), supercell_matrix=S, primitive_matrix=P, store_dense_svecs=dense)
+            svecs, multi = ph.primitive.get_smallest_vectors()
+            tables[dense] = (ph, svecs, multi)
+        ph = tables[True][0]
+        sup_u, r1 = xtal.project_to_unit(ph.supercell.positions, orc.L, D0)
+        p2s = ph.primitive.p2s_map
+        pairs = [(k, i) for k in range(len(sup_u)) for i in range(len(p2s))]
+        rng.shuffle(pairs)
+        for k, i in pairs[:(24 if ctx.quick else 80)]:
+            sep_u = sup_u[k] - sup_u[p2s[i]]                      # unit coords x D0
+            ds = [int(x) for x in A @ sep_u]                        # supercell coords x (D0 |det S|)
+            dr = [int(x) for x in np.array(ds) @ U]
+            B = box_for(Gr, D, dr)
+            if B is None:
+                ctx.extra["skipped_overflow"] = ctx.extra.get("skipped_overflow", 0) + 1
+                continue
+            rec = {}
+            exact = True
+            for dense in (True, False):
+                php, svecs, multi = tables[dense]
+                if dense:
+                    m, a = int(multi[k, i, 0]), int(multi[k, i, 1])
+                    v = svecs[a:a + m]
+                else:
+                    m = int(multi[k, i])
+                    v = svecs[k, i, :m]
+                cart = v @ php.primitive.cell                      # primitive coordinates -> Cartesian
+                vu, res = xtal.project_to_unit(cart, orc.L, D0)
+                exact = exact and res < 1e-6
+                rec[dense] = ([[int(x) for x in A @ w] for w in vu], m)
+            events.append(dict(kind="impl", G=Gr, U=U.tolist(), Gs=Gs.tolist(), D=D, ds=ds, B=B,
+                               dense=rec[True][0], denseMulti=rec[True][1], sparse=rec[False][0],
+                               sparseMulti=rec[False][1], exact=bool(exact), addrOK=True, convertOK=True))
+            ctx.count(("phonopy", entry, str(S), str(P), k, i))
+    ctx.extra["phonopy_primitive_pairs"] = len(events)
+    return events
+
+
 def model_cases(ctx):
     K, D = (3, 2) if ctx.quick else (5, 4)
     forms = reduced_forms(K) + [G for G in SPECIAL_FORMS if niggli(G)]
@@ -258,7 +348,7 @@ def run(ctx):
     ctx.rule = ("model case = (Niggli-reduced integer Gram form, separation on the 1/D grid); impl case = one "
                 "(lattice U G U^T, atom pair) with dense and sparse tables recorded from get_smallest_vectors; "
                 "distinct by (form, separation)")
-    ev = impl_events(ctx)
+    ev = impl_events(ctx) + phonopy_events(ctx)
     ctx.traces += len(ev)
     mc = model_cases(ctx)
     for c in mc:
